@@ -182,6 +182,19 @@ TConvertReversed == IsEvent("ConvertReversed") /\ LET e == Log[l] IN
 TTruncStream == IsEvent("TruncStream") /\ LET e == Log[l] IN
           /\ Chk("C11:truncated-stream-rejected", e.cut < e.size => e.threw)
           /\ UNCHANGED <<obj, blob, ck, sh>>
+\* construction / assignment routes: a target of a different configuration copy- or move-assigned from the source (also from a
+\* deserialize() temporary), or a new object copy- / move-constructed, IS the source: scalars, extremes (ghost), pairs, levels, image;
+\* it then continues as the source's lock-step twin (TwinOK on every later event)
+TAssign == IsEvent("Assign") /\ LET e == Log[l]  v == obj[e.src]  o == WithObs(v, Post(e))
+                                  d == IF e.route = "move-assign-deserialized" THEN ShRestored(ShOf(e.src), Coins(e)) ELSE ShOf(e.src) IN
+          /\ Named(o, e)
+          /\ Chk("assigned-or-constructed=source", e.k = v.k /\ e.est = v.est /\ e.nret = v.nret /\ (v.pairs # NoObs => e.pairs = v.pairs))
+          /\ Chk("assigned-or-constructed-image=source", e.img = e.srcimg)
+          /\ Chk("iteration-yields-num-retained", e.iterN = e.nret)
+          /\ LevelsOK(e, d)
+          /\ obj' = (e.dst :> o) @@ obj /\ ck' = (e.dst :> CkOf(e.src)) @@ ck /\ sh' = ShSet((e.dst :> d) @@ sh) /\ UNCHANGED blob
+\* an object obtained by any construction route must accept the operations the original accepts
+TContinueFailed == IsEvent("ContinueFailed") /\ Chk("constructed-object-continues", FALSE) /\ UNCHANGED <<obj, blob, ck, sh>>
 TDestroy == IsEvent("Destroy") /\ LET e == Log[l] IN Destroy(e.id) /\ UNCHANGED <<blob, ck, sh>>
 \* invalid queries must throw: any query of an empty sketch, normalized rank outside [0,1], NaN / unsorted / repeated split points
 \* after a refused call: the projection of the target is the one before the call (queries that build the sorted view sort level 0
@@ -221,7 +234,7 @@ TDeser == IsEvent("Deser") /\ LET e == Log[l]  b == blob[e.blob]  v == b.val  o 
           /\ obj' = (e.dst :> o) @@ obj /\ ck' = (e.dst :> b.ck) @@ ck /\ sh' = ShSet((e.dst :> ShRestored(b.sh, Coins(e))) @@ sh) /\ UNCHANGED blob
 
 TInit == obj = <<>> /\ l = 1 /\ blob = <<>> /\ ck = <<>> /\ sh = <<>>
-TNext == TBegin \/ TNew \/ TUpdate \/ TUpdateNaN \/ TMerge \/ TObs \/ TCopy \/ TConvert \/ TConvertReversed \/ TTruncStream \/ TRefused \/ TDestroy \/ TInvalid \/ TSer \/ TDeser
+TNext == TBegin \/ TNew \/ TUpdate \/ TUpdateNaN \/ TMerge \/ TObs \/ TCopy \/ TConvert \/ TConvertReversed \/ TTruncStream \/ TRefused \/ TAssign \/ TContinueFailed \/ TDestroy \/ TInvalid \/ TSer \/ TDeser
 TSpec == TInit /\ [][TNext]_tvars
 \* cheap per-state invariant (the clauses are evaluated by name at every event)
 TInv == TRUE
